@@ -83,6 +83,8 @@ func (p *c35TyParser) parse() (arrow.DataType, error) {
 		return arrow.FixedWidthTypes.Timestamp_us, nil
 	case "fsb4":
 		return &arrow.FixedSizeBinaryType{ByteWidth: 4}, nil
+	case "fsb8":
+		return &arrow.FixedSizeBinaryType{ByteWidth: 8}, nil
 	case "null":
 		return arrow.Null, nil
 	case "dict8", "dict16", "dict32":
@@ -134,14 +136,29 @@ func (p *c35TyParser) parse() (arrow.DataType, error) {
 	return nil, fmt.Errorf("unknown type token %q", t)
 }
 
-// c35Schema parses "<col>;<col>;..." ("-" = no columns).
+// c35Schema parses "<col>;<col>;..." ("-" = no columns). A column may end in tokens "~k=v" (field
+// metadata); a pseudo-column "^k=v" is schema-level metadata. Neither changes names, types or the
+// storage layout — they make schemas that differ only in what Schema.Fingerprint() ignores.
 func c35Schema(cols string) (*arrow.Schema, error) {
 	if cols == "-" {
 		return arrow.NewSchema(nil, nil), nil
 	}
 	var fields []arrow.Field
-	for i, c := range strings.Split(cols, ";") {
-		p := &c35TyParser{toks: strings.Split(c, ",")}
+	var smk, smv []string
+	for _, c := range strings.Split(cols, ";") {
+		if strings.HasPrefix(c, "^") {
+			kv := strings.SplitN(c[1:], "=", 2)
+			smk, smv = append(smk, kv[0]), append(smv, kv[len(kv)-1])
+			continue
+		}
+		toks := strings.Split(c, ",")
+		var fmk, fmv []string
+		for len(toks) > 1 && strings.HasPrefix(toks[len(toks)-1], "~") {
+			kv := strings.SplitN(toks[len(toks)-1][1:], "=", 2)
+			fmk, fmv = append([]string{kv[0]}, fmk...), append([]string{kv[len(kv)-1]}, fmv...)
+			toks = toks[:len(toks)-1]
+		}
+		p := &c35TyParser{toks: toks}
 		dt, err := p.parse()
 		if err != nil {
 			return nil, err
@@ -149,9 +166,45 @@ func c35Schema(cols string) (*arrow.Schema, error) {
 		if p.pos != len(p.toks) {
 			return nil, fmt.Errorf("trailing type tokens in %q", c)
 		}
-		fields = append(fields, arrow.Field{Name: fmt.Sprintf("c%d", i), Type: dt, Nullable: true})
+		f := arrow.Field{Name: fmt.Sprintf("c%d", len(fields)), Type: dt, Nullable: true}
+		if len(fmk) > 0 {
+			f.Metadata = arrow.NewMetadata(fmk, fmv)
+		}
+		fields = append(fields, f)
+	}
+	if len(smk) > 0 {
+		md := arrow.NewMetadata(smk, smv)
+		return arrow.NewSchema(fields, &md), nil
 	}
 	return arrow.NewSchema(fields, nil), nil
+}
+
+// c35SchemaStrictEqual: names, nullability, types (incl. fixed-size widths and nested field
+// metadata), field metadata and schema-level metadata all equal.
+func c35SchemaStrictEqual(a, b *arrow.Schema) bool {
+	if a.NumFields() != b.NumFields() || !c35MetaEqual(a.Metadata(), b.Metadata()) {
+		return false
+	}
+	for i := 0; i < a.NumFields(); i++ {
+		fa, fb := a.Field(i), b.Field(i)
+		if fa.Name != fb.Name || fa.Nullable != fb.Nullable || !c35MetaEqual(fa.Metadata, fb.Metadata) ||
+			!arrow.TypeEqual(fa.Type, fb.Type, arrow.CheckMetadata()) || fa.Type.String() != fb.Type.String() {
+			return false
+		}
+	}
+	return true
+}
+
+func c35MetaEqual(a, b arrow.Metadata) bool {
+	if a.Len() != b.Len() {
+		return false
+	}
+	for i := 0; i < a.Len(); i++ {
+		if a.Keys()[i] != b.Keys()[i] || a.Values()[i] != b.Values()[i] {
+			return false
+		}
+	}
+	return true
 }
 
 // c35OwnKind is the harness's own reading of the storage-layout rule from the token lists
@@ -163,6 +216,9 @@ func c35OwnKind(cols string) string {
 	}
 	top, any := false, false
 	for _, c := range strings.Split(cols, ";") {
+		if strings.HasPrefix(c, "^") {
+			continue
+		}
 		for i, t := range strings.Split(c, ",") {
 			if strings.HasPrefix(t, "dict") {
 				any = true
@@ -218,7 +274,7 @@ func c35Fill(b array.Builder, dt arrow.DataType, r *Rng, allowNull bool) {
 	case *array.BinaryBuilder:
 		bb.Append(r.Bytes(r.Intn(6)))
 	case *array.FixedSizeBinaryBuilder:
-		bb.Append(r.Bytes(4))
+		bb.Append(r.Bytes(dt.(*arrow.FixedSizeBinaryType).ByteWidth))
 	case *array.Date32Builder:
 		bb.Append(arrow.Date32(int32(r.U64() % 40000)))
 	case *array.TimestampBuilder:
